@@ -244,6 +244,7 @@ Definition FAIL : list Z := [-99; -99; -99].
    4 tlwe_keygen k N | 5 tlwe_encrypt_zero k N key | 6 tlwe_sym_encrypt k N key msg(N) | 7 tlwe_sym_encryptT k N key msg
    8 tlwe decrypt k N key c M (polynomial) | 9 tlwe decryptT | 10 tgsw_sym_encrypt_int k N l B key m | 11 tgsw_sym_encrypt k N l B key mu(N)
    12 create_ks_key n nout t b in_key out_key | 13 secret_keyset n k N l B t bb
+   14 lwe_sym_encrypt_ext n key message noise_numerator noise_exponent (the external noise is numerator / 2^exponent)
    every encryption result is followed by the number of draws left *)
 Definition entry_enc (v : list Z) : list Z :=
   match v with
@@ -304,6 +305,11 @@ Definition entry_enc (v : list Z) : list Z :=
         | Some (lk, tk, ks, bk, rest) => lk ++ concat tk ++ concat (map flat_sample ks) ++ concat (map (fun g => concat (map (@concat Z) g)) bk) ++ [nleft rest]
         | None => FAIL end
       | _ => [] end
+    else if opc =? 14 then
+      match r with n :: r1 => let n := Z.to_nat n in
+        match skipn n r1 with message :: num :: ke :: nd :: dsv =>
+          match lwe_sym_encrypt_ext (firstn n r1) message (num, ke) (draws_of (Z.to_nat nd) dsv) with Some (c, rest) => flat_sample c ++ [nleft rest] | None => FAIL end
+        | _ => [] end | _ => [] end
     else []
   | _ => []
   end.
